@@ -19,7 +19,7 @@ pub fn create(
     if index.return_type() != Type::Int {
         return Err(Error::CannotIndexWith(index.str));
     }
-    if !instruction_return_type.can_be_indexed() {
+    if !instruction_return_type.can_be_indexed() || instruction_return_type.index_result().is_none() {
         return Err(Error::CannotIndexInto(instruction_return_type));
     }
     Ok(BinOperation {
